@@ -691,6 +691,79 @@ fn pw_strings(cx: &mut Ctx, idx: &mut u64) {
     }
 }
 
+/// signatures whose scalar half sits on the edges of the group order (L itself, L +- 1, multiples of L below 2^256, 0,
+/// powers of two, 2^256 - 1), behind several kinds of R: a canonicity test that is off by one meets exactly these
+fn signature_scalar_edges(cx: &mut Ctx, list: &[Ep], k: &K, idx: &mut u64) {
+    const L: [u8; 32] = [0xed, 0xd3, 0xf5, 0x5c, 0x1a, 0x63, 0x12, 0x58, 0xd6, 0x9c, 0xf7, 0xa2, 0xde, 0xf9, 0xde, 0x14, 0, 0, 0, 0, 0, 0, 0, 0, 0, 0, 0, 0, 0, 0, 0, 0x10];
+    fn add(a: &[u8; 32], b: &[u8; 32]) -> Option<[u8; 32]> {
+        let mut o = [0u8; 32];
+        let mut c = 0u16;
+        for i in 0..32 {
+            let v = a[i] as u16 + b[i] as u16 + c;
+            o[i] = v as u8;
+            c = v >> 8;
+        }
+        if c == 0 { Some(o) } else { None }
+    }
+    fn small(v: u8) -> [u8; 32] {
+        let mut o = [0u8; 32];
+        o[0] = v;
+        o
+    }
+    let mut scalars: Vec<(String, [u8; 32])> = vec![("0".into(), [0u8; 32]), ("1".into(), small(1)), ("2^256-1".into(), [0xff; 32])];
+    let mut kl = [0u8; 32];
+    for kk in 1..=15u32 {
+        match add(&kl, &L) {
+            Some(v) => kl = v,
+            None => break,
+        }
+        scalars.push((format!("{}L", kk), kl));
+        if let Some(p1) = add(&kl, &small(1)) {
+            scalars.push((format!("{}L+1", kk), p1));
+        }
+        let mut m1 = kl;
+        for b in m1.iter_mut() {
+            let (v, borrow) = b.overflowing_sub(1);
+            *b = v;
+            if !borrow {
+                break;
+            }
+        }
+        scalars.push((format!("{}L-1", kk), m1));
+    }
+    for bit in [252usize, 253, 254, 255] {
+        let mut o = [0u8; 32];
+        o[bit / 8] = 1 << (bit % 8);
+        scalars.push((format!("2^{}", bit), o));
+    }
+    let eps_: Vec<&Ep> = list.iter().filter(|e| e.name.to_lowercase().contains("sign")).collect();
+    let mut ident = [0u8; 32];
+    ident[0] = 1;
+    for (sn, sc) in &scalars {
+        for (rn, r) in [("public_key_as_R", k.spk), ("identity", ident), ("zeros", [0u8; 32]), ("random", [0x5au8; 32])] {
+            *idx += 1;
+            if !cx.mine(*idx) {
+                continue;
+            }
+            let mut rng = cx.rng.fork(*idx);
+            let mut r = r;
+            if rn == "random" {
+                r = rng.arr();
+            }
+            for tail in [0usize, 1, 40] {
+                let mut input = r.to_vec();
+                input.extend_from_slice(sc);
+                input.extend_from_slice(&rng.bytes(tail));
+                for ep in &eps_ {
+                    total(cx, ep.name, &input, "signature_scalar_edge", k, ep.call, 64 * input.len() + (1 << 20));
+                }
+            }
+            cx.key(&format!("sig scalar {} {}", sn, rn));
+            cx.cover("signature_scalar_edge", sn);
+        }
+    }
+}
+
 /// byte strings built *for the keys of this run* so that the Poly1305 accumulator reaches an edge value while the entry
 /// point authenticates them (the value p + v that the final subtraction must handle, limb-edge values for the carry
 /// chains): for a fixed key these strings exist among "every byte string", random generation finds them with
@@ -802,6 +875,7 @@ pub fn run(cx: &mut Ctx) {
     }
 
     poly_edge_inputs(cx, &list, &k, &mut idx);
+    signature_scalar_edges(cx, &list, &k, &mut idx);
     if only_ni {
         return;
     }
